@@ -42,11 +42,11 @@ class Glue(Harness):
         if prop == "C18":
             return [dict(kind="init", n=1, npt=2), dict(kind="init", n=2, npt=3)]
         S = [dict(kind="init", n=1, npt=2), dict(kind="init", n=1, npt=3), dict(kind="init", n=2, npt=3),
-             dict(kind="init", n=2, npt=5),
+             dict(kind="init", n=2, npt=5), dict(kind="init", n=2, npt=6),
              dict(kind="trstep", n=1, cons=False), dict(kind="trstep", n=1, cons=True), dict(kind="soc", n=1),
              dict(kind="geo", n=1, cons=False)]
         if tier == "thorough":
-            S += [dict(kind="init", n=2, npt=6), dict(kind="init", n=3, npt=4), dict(kind="init", n=3, npt=7),
+            S += [dict(kind="init", n=3, npt=4), dict(kind="init", n=3, npt=7), dict(kind="init", n=3, npt=10),
                   dict(kind="trstep", n=2, cons=True), dict(kind="soc", n=2), dict(kind="geo", n=2, cons=True)]
         return S
 
